@@ -29,7 +29,7 @@ ASSUMPTIONS = [
     "floats are those whose str() is positional; law 2 is evaluated with redirect_defaults on (map default)",
     "delivery = urlsplit, strip script root, percent-decode the path once (what a WSGI server hands over)",
 ]
-TIERS = {"quick": dict(nshards=16, maps=1200, tuples=6), "thorough": dict(nshards=64, maps=6000, tuples=12)}
+TIERS = {"quick": dict(nshards=16, maps=1200, tuples=6, concurrent=6), "thorough": dict(nshards=64, maps=6000, tuples=12, concurrent=40)}
 ALPHA = list("ab1.-_~ ;?#%&=+@:!$'()*,é☃😀 []{}|^`<>\"\\") + ["%2F", "%25", "..", " ", "‮", "\U0001f40d", "ß", "İ"]
 
 
@@ -127,6 +127,80 @@ class ConvSpy:
         self.pairs = []
 
 
+def concurrent_first_use(rec, rng, n):
+    """First use of a fresh Map from two threads at once (yield injection inside Map.update via sys.monitoring):
+    every thread must get what a sequential first use gives (the map sorts its rules lazily, under a lock)."""
+    import sys
+    import threading
+    import time
+
+    from werkzeug.routing import Map, Rule
+    from werkzeug.routing import map as MP
+
+    mon = sys.monitoring
+    TOOL = 5
+    try:
+        mon.use_tool_id(TOOL, "verif-yield-c04")
+    except ValueError:
+        return
+    inj = [0]
+
+    def on_line(code, line):
+        inj[0] += 1
+        time.sleep(0.0005)
+
+    mon.register_callback(TOOL, mon.events.LINE, on_line)
+    mon.set_local_events(TOOL, MP.Map.update.__code__, mon.events.LINE)
+    try:
+        for _ in range(n):
+            def mk():
+                # registered in the "wrong" order: the general rule before the defaults / more specific rule
+                rules = [Rule("/list/page/<int:page>", endpoint="list"), Rule("/list/", endpoint="list", defaults={"page": 1}),
+                         Rule("/archive/<int:year>", endpoint="archive"), Rule("/archive/<int:year>/<int:month>", endpoint="archive"),
+                         Rule("/x/<string:a>", endpoint="x")]
+                rng.shuffle(rules)
+                return [Rule(r.rule, endpoint=r.endpoint, defaults=r.defaults) for r in rules]
+
+            proto = mk()
+            calls = [("list", {"page": 1}), ("list", {"page": 3}), ("archive", {"year": 2024, "month": 7}), ("archive", {"year": 2024}), ("x", {"a": "q"})]
+            ref_map = Map([Rule(r.rule, endpoint=r.endpoint, defaults=r.defaults) for r in proto]).bind("h.com")
+            expected = [ref_map.build(ep, dict(v)) for ep, v in calls]
+            m = Map([Rule(r.rule, endpoint=r.endpoint, defaults=r.defaults) for r in proto])
+            ad = m.bind("h.com")
+            results = {}
+            barrier = threading.Barrier(2)
+
+            def worker(i):
+                out = []
+                barrier.wait()
+                for ep, v in (calls if i == 0 else calls[::-1]):
+                    try:
+                        out.append((ep, tuple(sorted(v.items())), ad.build(ep, dict(v))))
+                    except Exception as e:  # noqa: BLE001
+                        out.append((ep, tuple(sorted(v.items())), f"{type(e).__name__}"))
+                results[i] = out
+
+            ts = [threading.Thread(target=worker, args=(i,)) for i in range(2)]
+            for t in ts:
+                t.start()
+            for t in ts:
+                t.join(30)
+            rec.case()
+            rec.observe("concurrent_first_use_maps")
+            rec.nontrivial(("conc", tuple(r.rule for r in proto)))
+            exp = {(ep, tuple(sorted(v.items()))): u for (ep, v), u in zip(calls, expected)}
+            for i, out in results.items():
+                for ep, vk, got in out:
+                    if got != exp[(ep, vk)]:
+                        rec.violation("C04/concurrent-first-use-builds-differently", f"thread {i}: build({ep!r}, {dict(vk)!r}) = {got!r}, sequential first use gives {exp[(ep, vk)]!r}; rules {[r.rule for r in proto]}",
+                                      {"rules": [r.rule for r in proto], "endpoint": ep, "values": dict(vk)}, monitor="schedule-stress")
+                        break
+    finally:
+        mon.set_local_events(TOOL, MP.Map.update.__code__, 0)
+        mon.free_tool_id(TOOL)
+    rec.observe("concurrent_injected_yields", inj[0])
+
+
 def run(shard, rec, rng):
     from werkzeug.exceptions import HTTPException
     from werkzeug.routing import Map, Rule, Subdomain, Submount
@@ -144,6 +218,7 @@ def run(shard, rec, rng):
         "MapAdapter._partial_build": opt(lambda: MP.MapAdapter._partial_build),
     })
     cfg = TIERS[shard["_tier"]]
+    concurrent_first_use(rec, rng, cfg.get("concurrent", 6))
     for it in range(cfg["maps"]):
         nr = rng.randint(1, 4)
         mode = rng.choice(["plain", "plain", "subdomain", "host", "submount", "subdomainfactory", "default_subdomain"])
